@@ -88,7 +88,7 @@ def check(run):
     bygrp = {}
     for c, obs in pairs:
         bygrp.setdefault(c['grp'], []).append((c, obs))
-    topo = {'tree': 0, 'loop': 0, 'multi_edge': 0, 'landmark_offset_edges': 0, 'far_guess': 0}
+    topo = {'tree': 0, 'loop': 0, 'multi_edge': 0, 'landmark_offset_edges': 0, 'far_guess': 0, 'history_two_calls': 0, 'shared_initial_object': 0}
     for gi, items in sorted(bygrp.items()):
         ref = None
         for c, obs in items:
@@ -112,7 +112,27 @@ def check(run):
             cc = {k: v for k, v in c.items() if k not in ('grp', 'gj', 'conv')}
             g = GC.build_graph(cc, random.Random(gi).choice(GC.ID_MAPS))
             key = dict(kind=c['verts'][0]['k'], guess=['lattice', 'near', 'far'][c['gj']])
+            hist = ['none', 'two-calls', 'shared-initial-object'][(gi + c['gj']) % 3]
+            fxd = [bool(v['fixed']) or (c['fixFirst'] and j == 0) for j, v in enumerate(cc['verts'])]
+            free_v = [v for v, f in zip(g._vertices, fxd) if not f]
             try:
+                if hist == 'two-calls' and len(free_v) >= 2:
+                    # History: an earlier optimize() on the same Graph; then one free vertex (now at its optimal position) is marked fixed and the
+                    # others are moved to a new guess.  Fixing a vertex AT the optimum does not change the optimum of the others.
+                    start = [v.pose.copy() for v in g._vertices]
+                    with contextlib.redirect_stdout(io.StringIO()):
+                        g.optimize(fix_first_pose=c['fixFirst'], verbose=False)
+                    free_v[0].fixed = True
+                    for v, p in zip(g._vertices, start):
+                        if v is not free_v[0] and v in free_v:
+                            v.pose = p + np.array([0.5, -0.25, 1.0][:len(p)])
+                    topo['history_two_calls'] = topo.get('history_two_calls', 0) + 1
+                elif hist == 'shared-initial-object' and len(free_v) >= 2:
+                    # History-free aliasing: all free vertices are initialised with ONE pose object (any initial guess is allowed)
+                    shared = free_v[0].pose
+                    for v in free_v:
+                        v.pose = shared
+                    topo['shared_initial_object'] = topo.get('shared_initial_object', 0) + 1
                 with contextlib.redirect_stdout(io.StringIO()):
                     ret = g.optimize(fix_first_pose=c['fixFirst'], verbose=False)
             except Exception as ex:  # noqa
